@@ -33,7 +33,10 @@ def main():
         print(prop, "IDENTICAL" if ok else "DIFFERENT", a, b, c, flush=True)
         if not ok:
             bad.append(prop)
-    json.dump(out, open(os.path.join(VERIF, "selftest", "determinism_results.json"), "w"), indent=1)
+    path = os.path.join(VERIF, "selftest", "determinism_results.json")
+    prev = json.load(open(path)) if os.path.exists(path) else {}
+    prev.update(out)
+    json.dump(prev, open(path, "w"), indent=1)
     return 1 if bad else 0
 
 
